@@ -66,8 +66,9 @@ def configs():
         "regex": (text(analysis.RegexAnalyzer()), P),
         "regex-gaps": (text(analysis.RegexAnalyzer(r"\s+", gaps=True)), P),
         "keyword": (fields.KEYWORD(stored=True, scorable=True), dict(P, positional=False, highlight=False)),
+        # (a comma-separated keyword's source is what stands between the commas, blanks and all)
         "keyword-commas": (fields.KEYWORD(stored=True, commas=True, lowercase=True, scorable=True),
-                           dict(P, positional=False, highlight=False, words=False)),
+                           dict(P, positional=False, highlight=False, words=False, tight=False)),
         "id": (fields.ID(stored=True), dict(P, positional=False, highlight=False, words=False)),
         "ngram": (fields.NGRAM(minsize=2, maxsize=3, stored=True), NP),
         "ngramwords": (fields.NGRAMWORDS(minsize=2, maxsize=4, stored=True), dict(NP, highlight=True, grams=True)),
@@ -294,10 +295,12 @@ def _build_case(run, rng, name, field, flags, ndocs, schema, storage):
                 sl = []
                 if flags["offsets"] and sc is not None and ec is not None:
                     sl = [tid(x[0]) for x in tokens_of(field, text[sc:ec], "index")]
-                st.append([tid(t), int(pos), int(sc if sc is not None else -1), int(ec if ec is not None else -1), sl])
+                loose = 1 if (sc is not None and ec is not None and text[sc:ec] != text[sc:ec].strip()) else 0
+                st.append([tid(t), int(pos), int(sc if sc is not None else -1), int(ec if ec is not None else -1), sl, loose])
             qs.append({"q": null, "text": text, "obs": [{"kind": "stream", "path": "token stream (index mode)",
                                                         "n": len(text), "toks": st, "positional": flags["positional"],
-                                                        "offsets": flags["offsets"]}]})
+                                                        "offsets": flags["offsets"],
+                                                        "tight": bool(flags.get("tight", flags["offsets"]))}]})
             run.count(1)
             # (6) highlights
             if flags["highlight"] and (qtoks or flags.get("grams")):
